@@ -180,6 +180,51 @@ ExtrusionIgnoresLineCells(e) ==
   /\ GeoCells(Post(e)) = CodeExtrudeCells(e)
   /\ CodeExtrudeCells(e) # {ProductCell(c1, c2) : c1 \in GeoCells(e.pre[1]), c2 \in GeoCells(e.pre[2])}
 
+\* named deviation (the number of USED vertices is taken for the number of STORED points): to_meshtri(style='x')
+\* numbers its centre vertices from np.max(self.t) + 1 and tri * line shifts the vertex numbers of a layer by
+\* self.nvertices, while both store all points - an operand that stores points behind its highest used vertex gets
+\* cells attached to the wrong points.  When the result is exactly what the transcriptions ToMeshTriCells /
+\* ExtrudeTriLineCells of the code give for such an operand, the event is reported under
+\* Deviation_CountsUsedVerticesNotStoredPoints (and under nothing else)
+MaxUsed(m)       == MaxSet(UsedVertices(m))
+TrailingStray(m) == MaxUsed(m) < Len(m.p)
+\* mesh_quad_1.py:150-182  the points and cells of to_meshtri exactly as the code builds them: with style='x' the
+\* centre vertices are NUMBERED from np.max(self.t) + 1 (the highest used vertex + 1) but STORED behind all points
+ToMeshTriCells(m, style) ==
+  LET nt == Len(m.t)
+      nv == MaxUsed(m)                                              \* 151: np.max(self.t) + 1   (0-based) = MaxUsed (1-based ids)
+      col(rows, k) == [i \in DOMAIN rows |-> m.t[k][rows[i]]]
+  IN [ t |-> IF style = "x"                                         \* 150-159
+             THEN [q \in 1..(4 * nt) |->
+                     LET blk == (q - 1) \div nt k == ((q - 1) % nt) + 1
+                         rows == << <<1, 2>>, <<2, 3>>, <<3, 4>>, <<1, 4>> >>[blk + 1]
+                     IN col(rows, k) \o <<nv + k>>]
+             ELSE [q \in 1..(2 * nt) |->                            \* 161: hstack(t[[0,1,3]], t[[1,2,3]])
+                     LET blk == (q - 1) \div nt k == ((q - 1) % nt) + 1
+                     IN col(<< <<1, 2, 4>>, <<2, 3, 4>> >>[blk + 1], k)],
+       p |-> IF style = "x"                                         \* 178-182: hstack(doflocs, mean of the four vertices)
+             THEN m.p \o [k \in 1..nt |-> LET s == VSumSeq([i \in 1..4 |-> m.p[m.t[k][i]]]) IN
+                                          [i \in DOMAIN s |-> s[i] \div 4]]
+             ELSE m.p ]
+\* mesh_tri_1.py:393-419  tri * line exactly as the code builds it: every layer stores ALL points of the triangle
+\* mesh, but the vertex numbers of a layer are shifted by self.nvertices (the highest used vertex + 1)
+ExtrudeTriLineCells(m1, m2) ==
+  LET zs  == SortedSeq({m2.p[v][1] : v \in DOMAIN m2.p})             \* 401: np.sort(other.p[0])
+      np  == Len(m1.p)
+      nvu == MaxUsed(m1)                                            \* self.nvertices
+      nt  == Len(m1.t)
+      nz  == Len(zs)
+  IN [ p |-> [q \in 1..(np * nz) |-> m1.p[((q - 1) % np) + 1] \o <<zs[((q - 1) \div np) + 1]>>],      \* 402-406
+       t |-> [q \in 1..(nt * (nz - 1)) |->                                                         \* 410-415
+                LET i == (q - 1) \div nt k == ((q - 1) % nt) + 1 IN
+                [j \in 1..3 |-> m1.t[k][j] + i * nvu] \o [j \in 1..3 |-> m1.t[k][j] + nvu + i * nvu]] ]
+
+CountsUsedNotStored(e) ==
+  \/ /\ e.op = "to_meshtri_x" /\ TrailingStray(Pre(e))
+     /\ LET r == ToMeshTriCells(Pre(e), "x") IN Post(e).t = r.t /\ Post(e).p = r.p
+  \/ /\ e.op = "extrude" /\ Len(e.pre) = 2 /\ e.pre[1].kind = "tri" /\ e.pre[2].kind = "line" /\ TrailingStray(e.pre[1])
+     /\ LET r == ExtrudeTriLineCells(e.pre[1], e.pre[2]) IN Post(e).t = r.t /\ Post(e).p = r.p
+
 \* ---------------------------------------------------------------------------
 \* SameMeasure: exact integer measures * d!
 Measure(m) == SumSeq([k \in DOMAIN m.t |-> CellVolAbs(m.kind, GeoCellSeq(m, k))])
@@ -273,6 +318,9 @@ SurgeryClauses(e) ==
   IF e.err # "" THEN [NoUnexpectedError |-> FALSE]
   ELSE IF e.op \in {"refine", "setup"} THEN [NoUnexpectedError |-> TRUE]   \* state change only (C12 judges refinement)
   ELSE IF ~SurgWellFormed(e) THEN [NoUnexpectedError |-> TRUE, WellFormed |-> FALSE]
+  ELSE IF CountsUsedNotStored(e)
+       THEN [ NoUnexpectedError |-> TRUE, WellFormed |-> TRUE, OperandsUnchanged |-> OperandsUnchanged(e),
+              Deviation_CountsUsedVerticesNotStoredPoints |-> FALSE ]
   ELSE LET cells   == CellsAreExpectedPointSets(e)
            devExt  == ~cells /\ ExtrusionIgnoresLineCells(e)
        IN [ NoUnexpectedError |-> TRUE, WellFormed |-> TRUE,
@@ -376,23 +424,13 @@ RemoveDuplicateNodesImplOld(tm) ==
 RemoveUnusedNodesImpl(tm) ==
   LET r == ReixImpl(tm.p, tm.t) IN [tm EXCEPT !.p = r.p, !.t = r.t]
 
+\* (ToMeshTriCells / ExtrudeTriLineCells - the points and cells of to_meshtri and tri * line - are defined in part 1)
 \* mesh_quad_1.py:135-211  to_meshtri; c = tables of the quadrilateral mesh, ConnT(_) computes those of the result
 ToMeshTriImpl(tm, c, style, ConnT(_)) ==
   LET nt == Len(tm.t)
-      nv == Len(tm.p)                                               \* np.max(self.t) + 1 on a valid mesh
-      col(rows, k) == [i \in DOMAIN rows |-> tm.t[k][rows[i]]]
-      t  == IF style = "x"                                          \* 150-159
-            THEN [q \in 1..(4 * nt) |->
-                    LET blk == (q - 1) \div nt k == ((q - 1) % nt) + 1
-                        rows == << <<1, 2>>, <<2, 3>>, <<3, 4>>, <<1, 4>> >>[blk + 1]
-                    IN col(rows, k) \o <<nv + k>>]
-            ELSE [q \in 1..(2 * nt) |->                             \* 161: hstack(t[[0,1,3]], t[[1,2,3]])
-                    LET blk == (q - 1) \div nt k == ((q - 1) % nt) + 1
-                    IN col(<< <<1, 2, 4>>, <<2, 3, 4>> >>[blk + 1], k)]
-      p  == IF style = "x"                                          \* 178-182: mean of the four vertices (exact here)
-            THEN tm.p \o [k \in 1..nt |-> LET s == VSumSeq([i \in 1..4 |-> tm.p[tm.t[k][i]]]) IN
-                                          [i \in DOMAIN s |-> s[i] \div 4]]
-            ELSE tm.p
+      cells == ToMeshTriCells(tm, style)
+      t  == cells.t
+      p  == cells.p
       nb == IF style = "x" THEN 4 ELSE 2
       sub == [i \in DOMAIN tm.sub |->                               \* 165-176: concatenate(v, v + nt, ...)
                 [name |-> tm.sub[i].name,
